@@ -519,6 +519,20 @@ def exS : Fn := { body := [.litStatic "i:1", .setAttr 0 (.str "z") 1, .data (.co
 example : (match condCall exT exS true exHeap [.ref 0] with | .error e => some e | .ok _ => Option.none) =
     some Err.structureMismatch := by decide
 
+/-- `def f(m): box = B(); hd = m.c; w = hd.w; w.value = w.value + 1; box.item = hd; del m.c; return box`: the pre-existing
+sub-object `m.c` is detached from the argument and moved into a node created by the function.  It is reachable from
+the RESULTS after the call, so `jit_refines_eager` covers it (`ident`: every pre-existing object in the domain of `ψ`
+is mapped to itself): under `jit` the returned new node (address 3) holds the caller's own object 1, and its Variable
+(address 2) carries the update -/
+def exMove : Fn :=
+  { body := [.newNode "B", .getAttr 0 (.str "c"), .getAttr 2 (.str "w"), .readVar 3, .setVar 3 (.add (.reg 4) (.const 1)),
+             .setAttr 1 (.str "item") 2, .delAttr 0 (.str "c")], ret := [1] }
+
+example : (jitCall exMove exHeap [.ref 0]).toOption.map (fun r => (r.1, r.2[3]?, r.2[2]?)) =
+    some ([.ref 3], some (.node "B" [(.str "item", .ref 1)]), some (.var ["Param", "Variable"] 4 [])) ∧
+    (runFn exMove exHeap [.ref 0]).toOption.map (fun r => (r.1, r.2[3]?, r.2[2]?)) =
+    some ([.ref 3], some (.node "B" [(.str "item", .ref 1)]), some (.var ["Param", "Variable"] 4 [])) := by decide
+
 /-- the hypotheses of `jit_total`: the example heap is closed -/
 example : HeapClosed exHeap ∧ ∀ v ∈ [PVal.ref 0, PVal.ref 1], ValClosed exHeap v := by
   constructor
